@@ -819,6 +819,40 @@ func syncFacts(facts []Fact, rf *ssa.Call, isWant func(ssa.Value) bool) (okErr, 
 	sigAlloc := sl.X.(*ssa.Alloc)
 	rfErr := errValueOfCall(rf)
 	for _, f := range facts {
+		// bytes.Equal(sig[:], want[:]) known true: the same comparison spelled on slices of the two arrays
+		if call, isCall := f.Cond.(*ssa.Call); isCall && f.Truth {
+			if g := call.Call.StaticCallee(); g != nil && qualName(g) == "bytes.Equal" && len(call.Call.Args) == 2 {
+				wholeOf := func(v ssa.Value) ssa.Value {
+					sl, ok := v.(*ssa.Slice)
+					if !ok || sl.Low != nil || sl.High != nil {
+						return nil
+					}
+					return sl.X
+				}
+				a, b := wholeOf(call.Call.Args[0]), wholeOf(call.Call.Args[1])
+				isSigA := func(v ssa.Value) bool { return v == ssa.Value(sigAlloc) && dominatesInstr(rf, call) }
+				isWantA := func(v ssa.Value) bool {
+					// the address of the wanted array: what a load from it would be must satisfy isWant
+					if v == nil {
+						return false
+					}
+					if al, ok := v.(*ssa.Alloc); ok {
+						// a by-value array parameter spilled to a local
+						for _, r := range referrersOf(al) {
+							if st, ok := r.(*ssa.Store); ok && st.Addr == ssa.Value(al) && isWant(st.Val) {
+								return true
+							}
+						}
+						return false
+					}
+					return isWant(&ssa.UnOp{Op: token.MUL, X: v})
+				}
+				if a != nil && b != nil && (isSigA(a) && isWantA(b) || isSigA(b) && isWantA(a)) {
+					okEq = true
+				}
+			}
+			continue
+		}
 		cmp, ok := asCmp(f.Cond, f.Truth)
 		if !ok || cmp.Op != token.EQL {
 			continue
